@@ -39,6 +39,32 @@ var terminalTokens = []string{
 
 var blockerTokens = []string{"MACRO-BODY", "HANDLER-BIND", "IGNORE-ERRORS", "LOAD-STRING"}
 
+// degenerateBlockers are the other spellings of the same four boundaries:
+// handler-bind with 0 bindings (one and two body forms, and with the empty
+// binding list spliced in by a macro) and with 2 bindings, ignore-errors with
+// a single body form, a macro body that is a progn / has two forms, and a
+// nested load through load-bytes.
+var degenerateBlockers = []string{"HANDLER-BIND-0", "HANDLER-BIND-0-ONEFORM", "HANDLER-BIND-0-SPLICED", "HANDLER-BIND-2",
+	"IGNORE-ERRORS-ONEFORM", "MACRO-BODY-PROGN", "MACRO-BODY-TWOFORMS", "LOAD-BYTES"}
+
+func isDegenerateBlocker(t string) bool {
+	for _, d := range degenerateBlockers {
+		if d == t {
+			return true
+		}
+	}
+	return false
+}
+
+func hasDegenerateBlocker(shape []string) bool {
+	for _, t := range shape {
+		if isDegenerateBlocker(t) {
+			return true
+		}
+	}
+	return false
+}
+
 // positions for which only transparency is demanded: NT-* put the call in a
 // non-tail position; XP-* put it in the EXPANSION of a macro (evaluated after
 // the macro frame is gone: legitimately a tail call, DESIGN §C02).
@@ -70,14 +96,16 @@ func isNontail(t string) bool { return strings.HasPrefix(t, "NT-") }
 
 // blockerFrameName is the CallFrame.Name the blocker's own frame carries.
 func blockerFrameName(t string) string {
-	switch t {
-	case "HANDLER-BIND":
+	switch {
+	case strings.HasPrefix(t, "HANDLER-BIND"):
 		return "handler-bind"
-	case "IGNORE-ERRORS":
+	case strings.HasPrefix(t, "IGNORE-ERRORS"):
 		return "ignore-errors"
-	case "LOAD-STRING":
+	case t == "LOAD-STRING":
 		return "load-string"
-	case "MACRO-BODY":
+	case t == "LOAD-BYTES":
+		return "load-bytes"
+	case strings.HasPrefix(t, "MACRO-BODY"):
 		return "mb" // prefix: mb0, mb1, mb2
 	}
 	return ""
@@ -301,13 +329,28 @@ func wrap(c Case, tok string, level, k int, v vars, inner form) form {
 		return form{head: "handler-bind", args: []string{"([c02-cond (lambda (c &rest a) (- -5000 " + v.n + "))])", tick(L, v), E}, tail: 2}
 	case "IGNORE-ERRORS":
 		return form{head: "ignore-errors", args: []string{tick(L, v), E}, tail: 1}
-	case "LOAD-STRING":
+	case "HANDLER-BIND-0":
+		return form{head: "handler-bind", args: []string{"()", tick(L, v), E}, tail: 2}
+	case "HANDLER-BIND-0-ONEFORM":
+		return form{head: "handler-bind", args: []string{"()", E}, tail: 1}
+	case "HANDLER-BIND-0-SPLICED":
+		// the binding list is spliced in by a macro (see Source): the expansion is (handler-bind () tick E)
+		return form{head: "hbm", args: []string{"()", tick(L, v), E}, tail: 2}
+	case "HANDLER-BIND-2":
+		return form{head: "handler-bind", args: []string{"([c02-other (lambda (c &rest a) -7000)] [c02-cond (lambda (c &rest a) (- -5000 " + v.n + "))])", tick(L, v), E}, tail: 2}
+	case "IGNORE-ERRORS-ONEFORM":
+		return form{head: "ignore-errors", args: []string{E}, tail: 0}
+	case "LOAD-STRING", "LOAD-BYTES":
 		// E was rendered over the globals; it contains no string literal.
 		if strings.ContainsAny(E, "\"\\") {
 			panic("harness: load-string operand needs escaping: " + E)
 		}
-		return form{head: "progn", args: []string{"(set 'g-n " + v.n + ")", "(set 'g-a " + v.a + ")", "(load-string \"" + E + "\")"}, tail: 2}
-	case "MACRO-BODY":
+		load := "(load-string \"" + E + "\")"
+		if tok == "LOAD-BYTES" {
+			load = "(load-bytes (to-bytes \"" + E + "\"))"
+		}
+		return form{head: "progn", args: []string{"(set 'g-n " + v.n + ")", "(set 'g-a " + v.a + ")", load}, tail: 2}
+	case "MACRO-BODY", "MACRO-BODY-PROGN", "MACRO-BODY-TWOFORMS":
 		// the macro mbK (defined at top level, see Source) has E as its body
 		return form{head: "progn", args: []string{"(set 'g-n " + v.n + ")", "(set 'g-a " + v.a + ")", fmt.Sprintf("(mb%d)", k)}, tail: 2}
 
@@ -352,7 +395,7 @@ func levelVars(c Case) []vars {
 	cur := loc
 	for i, t := range c.Shape {
 		out[i] = cur
-		if t == "MACRO-BODY" || t == "LOAD-STRING" {
+		if strings.HasPrefix(t, "MACRO-BODY") || strings.HasPrefix(t, "LOAD-") {
 			cur = vars{n: "g-n", a: "g-a"}
 		}
 	}
@@ -370,8 +413,13 @@ func recursive(c Case, k int) (rec string, macroBody string) {
 		f = forwardForm(c, f)
 	}
 	for i := d - 1; i >= 0; i-- {
-		if c.Shape[i] == "MACRO-BODY" {
+		switch c.Shape[i] {
+		case "MACRO-BODY":
 			macroBody = f.String()
+		case "MACRO-BODY-PROGN":
+			macroBody = "(progn " + tick(i+1, lv[i+1]) + " " + f.String() + ")"
+		case "MACRO-BODY-TWOFORMS":
+			macroBody = tick(i+1, lv[i+1]) + " " + f.String()
 		}
 		f = wrap(c, c.Shape[i], i+1, k, lv[i], f)
 	}
@@ -396,6 +444,8 @@ func Source(c Case) string {
 	b.WriteString("(set 'g-n 0) (set 'g-a 0)\n")
 	for _, t := range c.Shape {
 		switch t {
+		case "HANDLER-BIND-0-SPLICED":
+			b.WriteString("(defmacro hbm (hs &rest body) (quasiquote (handler-bind (unquote hs) (unquote-splicing body))))\n")
 		case "XP-macro-identity":
 			b.WriteString("(defmacro mx (x) x)\n")
 		case "XP-macro-template":
